@@ -10,6 +10,8 @@ func init() {
 			c.ruleReadFull("R-READFULL", "pkg/scale")
 			c.min("R-READFULL", 1)
 			c.ruleAlloc("R-ALLOC", 1<<17, "pkg/scale")
+			c.ruleLenSign("pkg/scale")
+			c.min("R-LENSIGN", 4)
 			c.min("R-ALLOC", 2)
 			c.ruleCompactCanon("R-COMPACT/canon", "pkg/scale", "(*decodeState).decodeUint", "(*decodeState).decodeSmallInt")
 			c.min("R-COMPACT/canon", 6)
